@@ -45,24 +45,26 @@ def MediaSegmentBuilder.build (b : MediaSegmentBuilder) : Res MediaSegment :=
          b.has_discontinuity.getD false, b.program_date_time, d, uâŸ©
   | _, _ => .err
 
-/-- `Display for MediaSegment` (keys are printed by the playlist) -/
-def MediaSegment.show (s : MediaSegment) : Str :=
+/-- `Display for MediaSegment` as typed lines (keys are printed by the playlist) -/
+def MediaSegment.writeLines (s : MediaSegment) : List Line :=
   (match s.map with
-   | some m => m.show ++ ['\n']
+   | some m => [Line.map m]
    | none => [])
   ++ (match s.byte_range with
-      | some r => ExtXByteRange.show r ++ ['\n']
+      | some r => [Line.byteRange r]
       | none => [])
   ++ (match s.date_range with
-      | some d => d.show ++ ['\n']
+      | some d => [Line.dateRange d]
       | none => [])
-  ++ (if s.has_discontinuity then pfxDiscontinuity ++ ['\n'] else [])
+  ++ (if s.has_discontinuity then [Line.discontinuity] else [])
   ++ (match s.program_date_time with
-      | some p => p.show ++ ['\n']
+      | some p => [Line.programDateTime p]
       | none => [])
-  ++ s.duration.show ++ ['\n'] ++ s.uri ++ ['\n']
+  ++ [Line.inf s.duration, Line.uri s.uri]
 
-def MediaSegment.requiredVersion (s : MediaSegment) : ProtocolVersion :=
+def MediaSegment.show (s : MediaSegment) : Str := renderLines s.writeLines
+
+def MediaSegment.requiredVersion (s : MediaSegment) : Nat :=
   maxVersion [maxVersion (s.keys.map ExtXKey.requiredVersion),
     (match s.map with
      | some _ => 6
@@ -382,7 +384,7 @@ def builderParse (excess : Option Nat) (input : Str) : Res MediaPlaylist :=
 
 /-! ## required version and `Display` -/
 
-def MediaPlaylist.requiredVersion (p : MediaPlaylist) : ProtocolVersion :=
+def MediaPlaylist.requiredVersion (p : MediaPlaylist) : Nat :=
   maxVersion [1, 1, 1, 1, (if p.has_i_frames_only then 4 else 1), 1, 1, 1,
     maxVersion (p.segments.map MediaSegment.requiredVersion)]
 
@@ -400,8 +402,8 @@ def findReplaced (key : DecryptionKey) : List ExtXKey â†’ Res (Option ExtXKey)
   | some d :: rest =>
     if normFormat d == normFormat key && some key != some d then .ok (some (some d)) else findReplaced key rest
 
-/-- handle one key of a segment: new announced set and emitted text -/
-def showKeyStep (st : List ExtXKey Ã— Str) (key : ExtXKey) : Res (List ExtXKey Ã— Str) :=
+/-- handle one key of a segment: new announced set and emitted lines -/
+def writeKeyStep (st : List ExtXKey Ã— List Line) (key : ExtXKey) : Res (List ExtXKey Ã— List Line) :=
   let (avail, out) := st
   match key with
   | some dk =>
@@ -411,38 +413,45 @@ def showKeyStep (st : List ExtXKey Ã— Str) (key : ExtXKey) : Res (List ExtXKey Ã
     else
       let avail := setInsert (some k) avail
       match findReplaced k avail with
-      | .ok (some r) => .ok (setRemove r avail, out ++ ExtXKey.show (some k) ++ ['\n'])
-      | .ok none => .ok (avail, out ++ ExtXKey.show (some k) ++ ['\n'])
+      | .ok (some r) => .ok (setRemove r avail, out ++ [Line.key (some k)])
+      | .ok none => .ok (avail, out ++ [Line.key (some k)])
       | .err => .err
       | .panic => .panic
-  | none => .ok ([none], out ++ ExtXKey.show none ++ ['\n'])
+  | none => .ok ([none], out ++ [Line.key none])
 
-def showSegStep (st : List ExtXKey Ã— Str) (s : MediaSegment) : Res (List ExtXKey Ã— Str) :=
-  match foldRes showKeyStep st s.keys with
-  | .ok (avail, out) => .ok (avail, out ++ s.show)
+def writeSegStep (st : List ExtXKey Ã— List Line) (s : MediaSegment) : Res (List ExtXKey Ã— List Line) :=
+  match foldRes writeKeyStep st s.keys with
+  | .ok (avail, out) => .ok (avail, out ++ s.writeLines)
   | .err => .err
   | .panic => .panic
 
-/-- `Display for MediaPlaylist` (`to_string()`); `panic` only through `unreachable!` -/
+/-- the header lines of `Display for MediaPlaylist` (after `#EXTM3U`) -/
+def MediaPlaylist.headerLines (p : MediaPlaylist) : List Line :=
+  (if p.requiredVersion != 1 then [Line.version p.requiredVersion] else [])
+  ++ [Line.targetDuration p.target_duration]
+  ++ (if p.media_sequence != 0 then [Line.mediaSequence p.media_sequence] else [])
+  ++ (if p.discontinuity_sequence != 0 then [Line.discontinuitySequence p.discontinuity_sequence] else [])
+  ++ (match p.playlist_type with
+      | some t => [Line.playlistType t]
+      | none => [])
+  ++ (if p.has_i_frames_only then [Line.iFramesOnly] else [])
+  ++ (if p.has_independent_segments then [Line.independentSegments] else [])
+  ++ (match p.start with
+      | some s => [Line.start s]
+      | none => [])
+
+/-- `Display for MediaPlaylist` as typed lines (everything after the `#EXTM3U` line);
+`panic` only through the writer's `unreachable!` -/
+def MediaPlaylist.writeLines (p : MediaPlaylist) : Res (List Line) :=
+  match foldRes writeSegStep ([], p.headerLines) p.segments with
+  | .ok (_, out) => .ok (out ++ p.unknown.map Line.unknown ++ (if p.has_end_list then [Line.endList] else []))
+  | .err => .err
+  | .panic => .panic
+
+/-- `to_string()` -/
 def MediaPlaylist.show (p : MediaPlaylist) : Res Str :=
-  let head : Str :=
-    pfxM3u ++ ['\n']
-    ++ (if p.requiredVersion != 1 then ExtXVersion.show p.requiredVersion ++ ['\n'] else [])
-    ++ ExtXTargetDuration.show p.target_duration ++ ['\n']
-    ++ (if p.media_sequence != 0 then ExtXMediaSequence.show p.media_sequence ++ ['\n'] else [])
-    ++ (if p.discontinuity_sequence != 0 then ExtXDiscontinuitySequence.show p.discontinuity_sequence ++ ['\n'] else [])
-    ++ (match p.playlist_type with
-        | some t => t.show ++ ['\n']
-        | none => [])
-    ++ (if p.has_i_frames_only then pfxIFramesOnly ++ ['\n'] else [])
-    ++ (if p.has_independent_segments then pfxIndependentSegments ++ ['\n'] else [])
-    ++ (match p.start with
-        | some s => s.show ++ ['\n']
-        | none => [])
-  match foldRes showSegStep ([], head) p.segments with
-  | .ok (_, out) =>
-    .ok (out ++ (p.unknown.flatMap fun u => u ++ ['\n'])
-         ++ (if p.has_end_list then pfxEndList ++ ['\n'] else []))
+  match p.writeLines with
+  | .ok ls => .ok (pfxM3u ++ ['\n'] ++ renderLines ls)
   | .err => .err
   | .panic => .panic
 
